@@ -38,8 +38,8 @@
 
     [fx] switches the candidate repair (work/C32/fix2.diff): runTask marks the
     pushNotify running before it spawns (under the caller's push.mu), and the
-    deactivation writes status notRunning and deletes the entry in one critical
-    section.  The unchanged code is [fx = false]. *)
+    deactivation writes status notRunning and deletes the entry (when it still
+    is its own pushNotify) in one critical section.  The unchanged code is [fx = false]. *)
 From Coq Require Import List ZArith Bool.
 From C33 Require Import C32.Model.
 Import ListNotations.
@@ -111,6 +111,14 @@ Definition set_run_of (y : sys) (n : nat) (b : bool) : sys :=
   match nth_error (y_ns y) n with
   | Some f => set_notif y n (mkN b (n_sl f) (n_closed f))
   | None => y
+  end.
+
+(** The repaired deactivation deletes push.tasks[key] only when it still is
+    the goroutine's own pushNotify. *)
+Definition drop_own (e : option nat) (n : nat) : option nat :=
+  match e with
+  | Some m => if Nat.eqb m n then None else Some m
+  | None => None
   end.
 
 (** runTask on notify [n]: updateLastSeq, then go func. *)
@@ -237,7 +245,8 @@ Definition ystep (fx : bool) (c : cfg) (st : store) (y : sys) (e : yev) : sys * 
               if t_fc t + 1 >=? 3 then
                 let y1 := set_run_of y (t_n t) false in
                 if fx
-                then (set_task (set_entry y1 None) i (mkT (t_n t) PDeact2 (t_lp t) (t_fc t + 1)), [])
+                then (set_task (set_entry y1 (drop_own (y_entry y1) (t_n t))) i
+                               (mkT (t_n t) PDeact2 (t_lp t) (t_fc t + 1)), [])
                 else (set_task y1 i (mkT (t_n t) PDeact1 (t_lp t) (t_fc t + 1)), [])
               else (set_task (set_sl_of y (t_n t) (c_f2s c)) i (mkT (t_n t) PIdle (t_lp t) (t_fc t + 1)), [])
           | _ => (y, [])
@@ -296,6 +305,11 @@ Fixpoint yrun (fx : bool) (c : cfg) (st : store) (y : sys) (es : list yev) : sys
   | [] => y
   | e :: tl => yrun fx c st (fst (ystep fx c st y e)) tl
   end.
+
+(** The code in /repo as it is now: the repair is not applied.  (Check.v runs
+    the transition system with this switch; whoever applies work/C32/fix2.diff
+    sets it to [true].) *)
+Definition code_fx : bool := false.
 
 (** * Classes of goroutines *)
 (** Can still call PostData. *)
